@@ -120,6 +120,11 @@ class ApplyEchoPeer(SimPeer):
                               "word": -1, "key": -1, "mode": mode})
             self.wc_mode = mode
             out.append((GeckoPacketProtocolHandler(content=b"WCSET", parms=parms).send_bytes, (sender[0], sender[1])))
+        elif content.startswith(b"GETWC"):
+            # the spa model remembers the mode it was set to (the bundled simulator always answers 1)
+            from geckolib.driver import GeckoWatercareProtocolHandler
+            out = [(d, a) for (d, a) in out if not (inner(d) or b"").startswith(b"WCGET")]
+            out.append((GeckoWatercareProtocolHandler.response(self.wc_mode, parms=parms).send_bytes, (sender[0], sender[1])))
         for (pos, dat) in changes:
             h2 = GeckoPartialStatusBlockProtocolHandler.report_changes(self.sim._socket, [(pos, dat)], parms=parms)
             out.append((h2.send_bytes, (sender[0], sender[1])))
